@@ -275,6 +275,9 @@ impl Tree {
             // ```
             read_transaction_counter.block_until_zero();
 
+            #[cfg(feature = "verif")]
+            crate::verif::sched_point("beatree_prepare_sync");
+
             // It is safe for a read transaction to be created here, since it follows the conclusion
             // of the most recent sync and therefore references no logically free pages.
 
